@@ -538,14 +538,18 @@ func keyOnlyKind(kind string, wv bool) bool {
 
 func (w *World) monitorRead(d *SimDisk, e *DiskOp) {
 	w.Stats.ReadsSeen++
-	if !keyOnlyKind(e.Kind2, w.curWV) || e.Len == 0 {
+	kind, wv := e.Kind2, w.curWV
+	if w.OpOf != nil {
+		kind, wv = w.OpOf()
+	}
+	if !keyOnlyKind(kind, wv) || e.Len == 0 {
 		return
 	}
 	iv := w.valRanges[d.ID]
 	lo, hi := e.Off, e.Off+int64(e.Len)
 	i := sort.Search(len(iv), func(i int) bool { return iv[i].hi > lo })
 	if i < len(iv) && iv[i].lo < hi {
-		w.fail("value-read-by-key-only-op", e.Kind2, "disk %d: ReadAt(off=%d, len=%d) during key-only operation %q touches value bytes [%d,%d) of an item record", d.ID, e.Off, e.Len, e.Kind2, iv[i].lo, iv[i].hi)
+		w.fail("value-read-by-key-only-op", kind, "disk %d: ReadAt(off=%d, len=%d) during key-only operation %q touches value bytes [%d,%d) of an item record", d.ID, e.Off, e.Len, kind, iv[i].lo, iv[i].hi)
 		return
 	}
 	if e.Len >= decItemHdr {
